@@ -42,3 +42,24 @@ Proof.
   cbn [find fst snd String.eqb Ascii.eqb Bool.eqb].
   destruct f, te, rf, rl; destruct (in_avoid pf); destruct (String.eqb (strip_vendor raw) (strip_vendor loc)); cbn; reflexivity.
 Qed.
+
+(* the two package-name resolvers: pure decision programs over their map (no statement assigns
+   anything: an assignment is outside the language), computing the models for every map and path *)
+Theorem guess_source_is_model : forall m p,
+  out_string (pkgres_syms m p) (run (fun q => str_case q (pkgres_preds m p) false) guess_resolvepackage_src) = guess_resolve m p.
+Proof.
+  intros m p. unfold guess_resolve.
+  cbv [out_string run run_stmt guess_resolvepackage_src pkgres_preds pkgres_syms str_case xorb].
+  cbn [find fst snd String.eqb Ascii.eqb Bool.eqb].
+  destruct (map_get m p); [reflexivity|]. destruct (contains_slash p); reflexivity.
+Qed.
+
+Theorem simple_source_is_model : forall m p,
+  out_string (pkgres_syms m p) (run (fun q => str_case q (pkgres_preds m p) false) simple_resolvepackage_src) =
+  match simple_resolve m p with Some n => n | None => "<error>" end.
+Proof.
+  intros m p. unfold simple_resolve.
+  cbv [out_string run run_stmt simple_resolvepackage_src pkgres_preds pkgres_syms str_case xorb].
+  cbn [find fst snd String.eqb Ascii.eqb Bool.eqb].
+  destruct (map_get m p); reflexivity.
+Qed.
